@@ -57,3 +57,40 @@ func zzC18_udp_wiring() {
 		symAssert(closed == 1 && s.ctx.Err() != nil, "the first tick after a full period without a received message closes")
 	}
 }
+
+// the keep-alive ping on the datagram connection: an answer to the ping - the matching Reset, or a matching empty
+// Acknowledgement (peers differ) - is reported as the pong exactly once; an answer with another message ID is not
+func zzC18_udp_ping_answer() {
+	s := zzNewSession()
+	cc := zzNewConn(s, zzConnCfg{midSeed: 1000, maxRetrans: 2, ackTimeout: 1 << 30})
+	symSetNow(time.Unix(0, 1<<41))
+	pongs := 0
+	cancel, err := cc.AsyncPing(func() { pongs++ })
+	symAssert(err == nil && len(s.written) == 1, "the ping is on the wire")
+	if err != nil || len(s.written) != 1 {
+		return
+	}
+	w := s.written[0]
+	symAssert(w.typ == message.Confirmable && w.code == codes.Empty, "a ping is an empty confirmable message")
+	typ := []message.Type{message.Reset, message.Acknowledgement}[symChoose("answer-type", 2)]
+	match := symChoose("matching-id", 2) == 1
+	mid := w.mid
+	if !match {
+		mid = w.mid + 1
+	}
+	_ = cc.Process(nil, zzDatagram(typ, mid, codes.Empty, nil, nil))
+	symIdle()
+	if match {
+		symCover("answered")
+		symAssert(pongs == 1, "an answer to the ping (Reset or empty Acknowledgement with its message ID) is reported as the pong")
+		// a copy of the answer is not a second pong
+		_ = cc.Process(nil, zzDatagram(typ, mid, codes.Empty, nil, nil))
+		symIdle()
+		symAssert(pongs == 1, "a repeated answer is not reported again")
+	} else {
+		symCover("foreign-answer")
+		symAssert(pongs == 0, "an answer with another message ID is not the pong")
+	}
+	cancel()
+	symAssert(cc.midHandlerContainer.Length() == 0, "cancelling the ping leaves nothing behind")
+}
